@@ -76,8 +76,12 @@ type cmpAtom struct {
 	rel  string // ">" | "<=" | ">=" | "<" | "==" | "!="   — cmp(a, b) rel 0
 }
 
+var theProg *Prog
+
 func ruleR41(c *Ctx) *RuleResult {
 	p := c.p
+	theProg = p
+	pkgFuncsCache = map[*ssa.Package][]*ssa.Function{}
 	r := &RuleResult{Rule: "R41", Title: "HEAPGEOM: the sift routines look at the children 2i+1 / 2i+2 below the heap's size, pick the smaller one, and stop only when the heap order holds locally", Floor: 2}
 	ct := typeByKey(p, "trees/binaryheap.Heap")
 	if ct == nil {
@@ -170,6 +174,53 @@ func ruleR41(c *Ctx) *RuleResult {
 			r.bad(key, clause, "-", strings.Join(dedup(bad), "\n"))
 		} else {
 			r.ok(key, clause, "-", fmt.Sprintf("%d comparator call(s) in the heap's methods; every child-slot argument is read under its bound", ncalls))
+		}
+	}
+	// the iterator orders each level with a temporary heap: that heap must be ordered by the heap's own comparator (the very
+	// function value — a wrapper that swaps or reverses it orders ties differently from the way Pop does)
+	if it := typeByKey(p, "trees/binaryheap.Iterator"); it != nil {
+		key := "trees/binaryheap.Iterator.level-order"
+		clause := "every temporary heap the iterator builds to order a level is constructed with the iterated heap's own Comparator field"
+		var bad []string
+		n := 0
+		for _, nm := range sortedNames(methodsOf(p, it)) {
+			fn := methodsOf(p, it)[nm]
+			if fn.Blocks == nil {
+				continue
+			}
+			gc := c.GC(fn)
+			if gc.Undecided != "" {
+				continue
+			}
+			seen := map[string]bool{}
+			chk := func(t *Term) bool {
+				if t.Op == "call" && strings.HasSuffix(t.Leaf, "binaryheap.NewWith") && len(t.Args) == 2 {
+					s := noEpoch(t.Args[1])
+					if seen[s] {
+						return false
+					}
+					seen[s] = true
+					n++
+					if !(t.Args[1].Op == "load" && len(t.Args[1].Args) == 1 && t.Args[1].Args[0].Op == "fa" && t.Args[1].Args[0].Leaf == "Comparator" && strings.Contains(s, "(fa:heap p:0)")) {
+						bad = append(bad, fmt.Sprintf("%s builds a temporary heap ordered by %s, not by the iterated heap's Comparator", nm, trunc(s, 120)))
+					}
+				}
+				return false
+			}
+			for _, g := range gc.GCs {
+				for _, ef := range g.Effects {
+					ef.any(chk)
+				}
+				for _, a := range g.Guards {
+					a.any(chk)
+				}
+				g.Exit.any(chk)
+			}
+		}
+		if len(bad) > 0 {
+			r.bad(key, clause, "-", strings.Join(dedup(bad), "\n"))
+		} else {
+			r.ok(key, clause, "-", fmt.Sprintf("%d temporary heap(s), each built with heap.Comparator", n))
 		}
 	}
 	downs, ups := heapSifters(c)
@@ -682,6 +733,65 @@ func isHeapSizeSSA(fn *ssa.Function, v ssa.Value, depth int) bool {
 			}
 		}
 		return len(t.Edges) > 0
+	case *ssa.Parameter:
+		// a helper that receives the size: every call site in the package passes the heap's size
+		idx := -1
+		for i, q := range fn.Params {
+			if q == t {
+				idx = i
+			}
+		}
+		if idx < 0 || fn.Pkg == nil {
+			return false
+		}
+		sites := 0
+		for _, mem := range fn.Pkg.Members {
+			_ = mem
+		}
+		for _, caller := range callersInPackage(fn) {
+			for _, c := range allCalls(caller) {
+				cal := StaticCallee(c.Common())
+				if cal == nil {
+					continue
+				}
+				co := cal
+				if cal.Origin() != nil {
+					co = cal.Origin()
+				}
+				fo := fn
+				if fn.Origin() != nil {
+					fo = fn.Origin()
+				}
+				if co != fo || idx >= len(c.Common().Args) {
+					continue
+				}
+				sites++
+				if !isHeapSizeSSA(caller, c.Common().Args[idx], depth+1) {
+					return false
+				}
+			}
+		}
+		return sites > 0
 	}
 	return false
+}
+
+// callersInPackage: the source functions of fn's package (candidates for calling fn).
+var pkgFuncsCache = map[*ssa.Package][]*ssa.Function{}
+
+func callersInPackage(fn *ssa.Function) []*ssa.Function {
+	if fn.Pkg == nil {
+		return nil
+	}
+	if fs, ok := pkgFuncsCache[fn.Pkg]; ok {
+		return fs
+	}
+	var out []*ssa.Function
+	for _, f := range theProg.Funcs {
+		if f.Pkg == fn.Pkg && f.Blocks != nil {
+			out = append(out, f)
+		}
+	}
+	pkgFuncsCache[fn.Pkg] = out
+	return out
 }
